@@ -206,6 +206,21 @@ def world_consumers():
     return w
 
 
+def world_focus_rounds():
+    """C11/C09/C04 (exhaustive cover): a height decided in round 0 or in round 1 after a nil round, late votes for the
+    committing round, state machine entrances at every position, both consumers reading at any time."""
+    w = base_world()
+    V = [vote("precommit", 1, 0, {"nil": ok(1, 2, 3)}), vote("precommit", 1, 0, {"A1": ok(1, 2, 3)}), vote("precommit", 1, 0, {"A1": ok(4)}),
+         vote("precommit", 1, 1, {"A1": ok(1, 2, 3)}), vote("precommit", 1, 1, {"A1": ok(4)}), vote("prevote", 1, 1, {"A1": ok(1, 2)}),
+         vote("precommit", 1, 0, {"nil": ok(4)})]
+    w["votes"] = S(V)
+    w["phs"] = S([ph("A1", 0, 1), ph("A1", 1, 2), ph("A2", 0, 1)])
+    w["replays"] = S([])
+    w["smentr"] = S([{"h": 1, "r": 0, "pub": 4}, {"h": 1, "r": 1, "pub": 4}, {"h": 2, "r": 0, "pub": 4}])
+    w["smvotes"] = S([{"kind": "precommit", "target": "A1"}])
+    return w
+
+
 def world_wide():
     """C09: every message class at every position relative to the node: heights 0..3, rounds 0..3, every
     proof shape, proposers inside/outside the set, replays for any height/round."""
@@ -253,7 +268,8 @@ def world_wide():
 
 
 WORLDS = {"wide": world_wide, "consumers": world_consumers, "happy": world_happy, "adversarial": world_adversarial, "equivocation": world_equivocation,
-          "equivocation_heavy": lambda: world_equivocation((3, 1, 1, 2)), "replay": world_replay, "valsets": world_valsets}
+          "equivocation_heavy": lambda: world_equivocation((3, 1, 1, 2)), "replay": world_replay, "valsets": world_valsets,
+          "focus_rounds": world_focus_rounds}
 
 
 def to_sets(v):
